@@ -6,9 +6,12 @@ package main
 import (
 	"fmt"
 	"go/ast"
+	"go/token"
 	"go/types"
 	"sort"
 	"strings"
+
+	"golang.org/x/tools/go/ssa"
 )
 
 func init() {
@@ -544,6 +547,87 @@ func runC12(c *Ctx, r *Report) {
 	}
 	r.Doc("R-C12.13", "no channel can be closed twice: a close sits neither in a loop the channel outlives nor in a closure that several validators or calls run, unless under a sync.Once (the second close panics on a goroutine nothing recovers — a history with two refused blocks takes the process down)")
 	channelsClosedOnce(c, r, "R-C12.13")
+	r.Doc("R-C12.14", "no possibly-nil pointer of a concrete type is stored in an interface: a nil *T inside a non-nil interface passes every `!= nil` guard and is dereferenced by the first method call (a clock helper that returns nil for a load that yielded no entry)")
+	{
+		var mayBeNil func(v ssa.Value, depth int, seen map[ssa.Value]bool) bool
+		mayBeNil = func(v ssa.Value, depth int, seen map[ssa.Value]bool) bool {
+			if v == nil || depth > 6 || seen[v] {
+				return false
+			}
+			seen[v] = true
+			switch x := v.(type) {
+			case *ssa.Const:
+				return x.IsNil()
+			case *ssa.Phi:
+				for _, e := range x.Edges {
+					if mayBeNil(e, depth+1, seen) {
+						return true
+					}
+				}
+			case *ssa.ChangeType:
+				return mayBeNil(x.X, depth+1, seen)
+			case *ssa.UnOp:
+				if x.Op == token.MUL {
+					if a, ok := x.X.(*ssa.Alloc); ok {
+						sts := cellStores(a)
+						if len(sts) == 0 {
+							return true // declared, never assigned: the zero value
+						}
+						for _, st := range sts {
+							if mayBeNil(st.Val, depth+1, seen) {
+								return true
+							}
+						}
+					}
+				}
+			case *ssa.Call:
+				if cal := x.Call.StaticCallee(); cal != nil && cal.Pkg != nil && p.firstParty(cal.Pkg.Pkg) && len(cal.Blocks) > 0 {
+					for _, b := range cal.Blocks {
+						if ret, ok := b.Instrs[len(b.Instrs)-1].(*ssa.Return); ok && len(ret.Results) >= 1 {
+							// a result returned beside a non-nil error is not used by a caller that tests the error
+							if len(ret.Results) == 2 && isErrorType(ret.Results[1].Type()) {
+								if k, isC := ret.Results[1].(*ssa.Const); !isC || !k.IsNil() {
+									continue
+								}
+							}
+							if mayBeNil(ret.Results[0], depth+1, seen) {
+								return true
+							}
+						}
+					}
+				}
+			}
+			return false
+		}
+		nconv := 0
+		for _, fn := range p.Fns {
+			if fn.Orig != nil || fn.Obj == nil || fn.Body == nil || !p.firstParty(fn.Pkg.Types) || strings.HasSuffix(fn.Pkg.PkgPath, "/test") {
+				continue
+			}
+			sf := p.SSAFunc(fn)
+			if sf == nil {
+				continue
+			}
+			fn := fn
+			allInstrs(sf, true, func(ins ssa.Instruction) {
+				mi, ok := ins.(*ssa.MakeInterface)
+				if !ok {
+					return
+				}
+				if _, isPtr := mi.X.Type().Underlying().(*types.Pointer); !isPtr {
+					return
+				}
+				if isErrorType(mi.Type()) {
+					return
+				}
+				nconv++
+				r.Check(!mayBeNil(mi.X, 0, map[ssa.Value]bool{}), "R-C12.14", r.Key("R-C12.14", fn, "pointer-to-interface", types.TypeString(mi.X.Type(), nil)), nearestPos(mi),
+					"the pointer stored in the interface is never nil",
+					fmt.Sprintf("a %s that can be nil is stored in a %s: the interface is then not nil although it holds no object — `!= nil` guards pass and the first method call dereferences nil (a load that yields no entry crashes the constructor)", types.TypeString(mi.X.Type(), nil), types.TypeString(mi.Type(), nil)))
+			})
+		}
+		r.Floor("R-C12.14", "pointers of concrete type stored in interfaces", nconv, 10)
+	}
 	r.Doc("R-C12.8", "verifying a decoded entry keeps no state between calls (adopted from C07: a remembered failed key parse is a nil the next verification dereferences)")
 	importRules(c, r, "C07", []string{"R-C07.6"}, "R-C12.8", 0) // an expected-zero rule: nothing to adopt on a clean tree
 	r.Doc("R-C12.7", "on the decode path every error result is examined before the next step overwrites it: a failed step never hands its zero values on as if it had succeeded")
